@@ -8,7 +8,7 @@ FUNCS = ["expand_subcircuits", "fill_in_let", "expand_macros", "fill_in_map", "p
          "generate_jaqal_program", "iter_block_statements", "splice_blocks"]
 META = {
     "bounds": {"quick": "pass sequences: every ordered selection of 1..4 distinct passes among {expand_subcircuits, fill_in_let, expand_macros, fill_in_map} "
-                        "(64 orders; fill_in_map only after fill_in_let), one position applied twice; 3 templates, leaves in 2-value windows, one constant overridden (0..2); "
+                        "(64 orders; fill_in_map only after fill_in_let), one position applied twice; 6 templates, leaves in 2-value windows, one constant overridden (0..2); "
                         "parser flags: all 8 combinations",
                "thorough": "6 templates, leaves in 3-value windows, overrides on two constants"},
     "assumptions": ["fill_in_map may decline (JaqalError) on circuits whose macros index an alias by a parameter or take an alias as argument (documented limitation)",
@@ -33,13 +33,13 @@ def _window(t, tier, sym, w):
 
 
 SYM = {"t_macro_sub": ["i", "k"], "t_alias_macro": ["a", "i"], "t_loop_sub": ["k", "c"], "t_slice_let": ["a", "i"], "t_shadow": ["v", "i"],
-       "t_regsize_let": ["n", "i"]}
+       "t_regsize_let": ["n", "i"], "t_macro_nested": ["i", "j"], "t_macro_twice": ["i", "j"], "t_macro_single": ["i", "k"], "t_shadow_reg": ["a", "i"]}
 
 
 def jobs(tier):
     q = tier == "quick"
     out = []
-    temps = ["t_macro_sub", "t_alias_macro"] if q else list(SYM)
+    temps = ["t_macro_sub", "t_alias_macro", "t_macro_nested", "t_macro_twice", "t_macro_single", "t_shadow_reg"] if q else list(SYM)
     for t in temps:
         shrink = _window(t, tier, SYM[t][:1] if q else SYM[t], 1)
         step = 4 if q else 2
@@ -55,7 +55,7 @@ def jobs(tier):
                              note=f"{t}: pass sequences ORDERS[{lo}:{hi}], one position applied twice (idempotence), override of the first constant; "
                                   "oracle: meaning == reference (subcircuits expanded iff expand_subcircuits applied), result generates and re-parses to the same meaning"))
         for flags in range(8):
-            if flags >= 4 and t in ("t_alias_macro", "t_macro_reg"):
+            if flags >= 4 and t in ("t_alias_macro", "t_macro_reg", "t_macro_twice", "t_shadow_reg"):
                 continue        # fill_in_map declines macros that index an alias by a parameter: nothing to compare
             out.extend(tjobs(f"{H}:c10_flags", t, tier, shrink=shrink, fixed={"flags": flags, "mask": 1, "o1": 0},
                              extra_params=[("o0", "int")], extra_pre=["0 <= o0 <= 1" if q else "0 <= o0 <= 2"], functions=FUNCS, timeout=300,
